@@ -154,8 +154,22 @@ fn uses_reserved_twice(ty: &Ty) -> bool {
 fn enumerate_checks(msg_len: usize, others: usize, seed: u64, sink_calls_fixed1: u64) -> Vec<Check> {
 	let mut rng = Rng::from_seed(seed);
 	let mut v = vec![Check::Intact];
-	for len in 0..msg_len {
-		v.push(Check::Truncate { len });
+	if msg_len <= 2048 {
+		for len in 0..msg_len {
+			v.push(Check::Truncate { len });
+		}
+	} else {
+		// a large message: every cut near both ends and around the 8 KiB / 64 KiB marks, a seeded sample elsewhere
+		let mut lens: Vec<usize> = (0..64).chain(msg_len - 64..msg_len).collect();
+		for mark in [8192usize, 16384, 65536] {
+			lens.extend((mark - 3..mark + 14).filter(|l| *l < msg_len));
+		}
+		for _ in 0..150 {
+			lens.push(rng.usize(msg_len));
+		}
+		lens.sort_unstable();
+		lens.dedup();
+		v.extend(lens.into_iter().map(|len| Check::Truncate { len }));
 	}
 	for idx in 0..10 {
 		for val in 0..=255u8 {
@@ -245,7 +259,13 @@ impl Prop for C18 {
 
 	fn gen(&self, rng: &mut Rng, _tier: Tier, _run: u64) -> Scn {
 		let corner = ast::corner_schemas();
-		let schema = if rng.chance(1, 8) {
+		let mut scale = None;
+		let schema = if rng.chance(1, 40) {
+			let cheap = rng.bool();
+			let (ty, sc) = ast::gen_scale_schema(rng, cheap);
+			scale = Some(sc);
+			ty
+		} else if rng.chance(1, 8) {
 			rng.pick(&corner).clone()
 		} else {
 			let mut cfg = GenCfg::default_swarm(rng);
@@ -256,7 +276,7 @@ impl Prop for C18 {
 			ast::gen_schema(rng, cfg)
 		};
 		let env = Env::build(&schema);
-		let vcfg = ValCfg { max_len: 1 + rng.usize(5), max_depth: 4, budget: 6 + rng.below(30) as i32, str_boost: if rng.chance(1, 60) { 9000 } else { 0 } };
+		let vcfg = ValCfg { max_len: 1 + rng.usize(5), max_depth: 4, budget: 6 + rng.below(30) as i32, str_boost: if rng.chance(1, 60) { 9000 } else { 0 }, scale: None }.with_scale(scale);
 		let v = val::gen_val(rng, &env, &schema, &vcfg);
 		let others = canonical_variants(rng, &schema);
 		Scn {
@@ -270,6 +290,11 @@ impl Prop for C18 {
 
 	fn exec(&self, scn: &Scn) -> Outcome {
 		let mut out = Outcome::default();
+		{
+			let mut classes = vec![];
+			crate::val::scale_classes(&scn.val, &mut classes);
+			classes.into_iter().for_each(|c| out.count(c, 1));
+		}
 		let env = Env::build(&scn.schema);
 		let schema = match world::parse_schema(&scn.schema) {
 			Ok(s) => s,
